@@ -54,6 +54,14 @@ func intValue(ctx *vrun.Ctx, class, label string) *big.Int {
 		return new(big.Int).Sub(big2p256, big1)
 	case "big":
 		return cp(big2p256)
+	case "v7f":
+		return bn(0x7f)
+	case "v80":
+		return bn(0x80)
+	case "vff":
+		return bn(0xff)
+	case "v8000":
+		return bn(0x8000)
 	}
 	panic("unknown integer class " + class)
 }
@@ -309,7 +317,8 @@ func runSigParse(ctx *vrun.Ctx) error {
 	}
 	for _, need := range []string{"ecdsa.der/accept", "ecdsa.der/reject", "ecdsa.lax/may", "ecdsa.lows/accept", "schnorr.sig/accept",
 		"schnorr.sig/reject", "btcec.pub/accept", "btcec.pub/reject", "schnorr.pub/accept", "schnorr.pub/reject",
-		"musig.pubnonce/accept", "musig.pubnonce/reject", "musig.aggnonce/accept", "musig.aggnonce/reject"} {
+		"musig.pubnonce/accept", "musig.pubnonce/reject", "musig.aggnonce/accept", "musig.aggnonce/reject",
+		"musig.partialverify.pubnonce/accept", "musig.partialverify.pubnonce/reject"} {
 		if census[need] == 0 {
 			return fmt.Errorf("sigparse: vacuity: no case %s", need)
 		}
@@ -471,6 +480,65 @@ func parseCase(ctx *vrun.Ctx, c, e tla.Value) {
 		if err != nil || !bytes.Equal(back.SerializeCompressed(), evenWant.compressed()) {
 			ctx.Violation(key("roundtrip"), fmt.Sprintf("schnorr.ParsePubKey(SerializePubKey()) of the key parsed from %x is not its even-y point (%v)", b, err), replay(b))
 		}
+	case "musig.partialverify.pubnonce":
+		h1, h2 := shape, c.F("xc").Str()
+		bad := h1
+		if h1 == "even" || h1 == "odd" {
+			bad = h2
+		}
+		key = func(kind string) string { return "parse:" + parser + ":" + bad + ":" + kind }
+		// one honest signer: key d, secret nonce (k1, k2) whose points have the parities
+		// the plain forms ask for, aggregate nonce = its own public nonce
+		d := keyValue(ctx, "rand", label+"|d")
+		P := baseMul(d)
+		withParity := func(k *big.Int, form string) *big.Int {
+			if (form == "even" || form == "odd") && baseMul(k).evenY() != (form == "even") {
+				return negN(k)
+			}
+			return k
+		}
+		k1 := withParity(keyValue(ctx, "rand", label+"|k1"), h1)
+		k2 := withParity(keyValue(ctx, "rand", label+"|k2"), h2)
+		sec := craftNonces(k1, k2, P.compressed())
+		pks := [][]byte{P.compressed()}
+		var msg [32]byte
+		ctx.Rand("pvmsg|" + label).Read(msg[:])
+		agg := sec.PubNonce
+		sv, err := refSessionValues(agg[:], pks, nil, msg[:])
+		s, err2 := refPartialSign(sec.SecNonce[:], d, agg[:], pks, nil, msg[:])
+		if err != nil || err2 != nil || sv.b.Sign() == 0 {
+			panic("reference MuSig2 signing failed")
+		}
+		if !refPartialVerify(s, sec.PubNonce[:], P.compressed(), agg[:], pks, nil, msg[:]) {
+			panic("reference PartialSigVerify rejects the reference partial signature")
+		}
+		// the individual nonce under test
+		re := addN(k1, mulN(sv.b, k2)) // discrete log of R1 + b R2
+		half := func(form string, which int, other string) []byte {
+			switch {
+			case form == "even" || form == "odd":
+				if which == 1 {
+					if other == "zero33" { // forged: all of R1 + b R2 in the first half
+						return baseMul(re).compressed()
+					}
+					return sec.PubNonce[:33]
+				}
+				if other == "zero33" { // forged: (R1 + b R2) / b in the second half
+					return baseMul(mulN(re, invN(sv.b))).compressed()
+				}
+				return sec.PubNonce[33:]
+			}
+			return nonceHalf(ctx, form, label+fmt.Sprint("|h", which))
+		}
+		var nonce [musig2.PubNonceSize]byte
+		copy(nonce[:33], half(h1, 1, h2))
+		copy(nonce[33:], half(h2, 2, h1))
+		ps := musig2.NewPartialSignature(scalarOf(s), pubObj(sv.R))
+		ok := ps.Verify(nonce, agg, []*btcec.PublicKey{pubObj(P)}, pubObj(P), msg)
+		if ref := refPartialVerify(s, nonce[:], P.compressed(), agg[:], pks, nil, msg[:]); ref != (verdict == "accept") {
+			panic("reference PartialSigVerify disagrees with the specification on " + label)
+		}
+		judge(nonce[:], ok, nil)
 	case "musig.pubnonce", "musig.aggnonce":
 		h1, h2 := shape, c.F("xc").Str()
 		var nonce [musig2.PubNonceSize]byte
